@@ -140,7 +140,7 @@ impl SimState {
             .iter()
             .zip(&self.fired)
             .filter(|(f, _)| f.at >= pos || matches!(f.kind, FaultKind::FlushErr(_)))
-            .map(|(f, n)| (f.times.saturating_sub(*n)).min(16) as u64)
+            .map(|(f, n)| if f.times >= 1_000_000 { 16 } else { f.times.saturating_sub(*n) as u64 })
             .sum()
     }
 
